@@ -1,6 +1,9 @@
-import subprocess, os, sys, json, shutil
-BASE=os.environ.get('C08_BASE', '/work/repo-c08')
-M='/work/repo-c08m'
+"""Self-test of the C08 check: re-creates realistic mutants of /repo in a scratch worktree and runs
+`./check C08` against each (usage: /venv/bin/python harness/c08_mutants.py [M1 M3 ...]).
+VERIF=/work/verif-<id> (this worktree), scratch repo worktree /work/repo-<id>-m."""
+import subprocess, os, sys, json
+VERIF = os.path.dirname(os.path.dirname(os.path.abspath(__file__)))
+M = os.environ.get('C08_MUT', '/work/repo-p0809-m')
 MUTS = {
  'M1-list-sort-no-guard': ('pyglove/core/symbolic/list.py', """    if base.treats_as_sealed(self):
       raise base.WritePermissionError('Cannot sort a sealed List.')
@@ -27,37 +30,59 @@ MUTS = {
     self.extend(other)
     return self
 """, ""),
- 'M8-tree-set-no-parent-guard-and-no-precheck': ('pyglove/core/symbolic/base.py', """      if isinstance(parent_node, Symbolic) and treats_as_sealed(parent_node):""", """      if False and isinstance(parent_node, Symbolic) and treats_as_sealed(parent_node):"""),
+ 'M8-precheck-disabled': ('pyglove/core/symbolic/base.py', """      if isinstance(parent_node, Symbolic) and treats_as_sealed(parent_node):""", """      if False and isinstance(parent_node, Symbolic) and treats_as_sealed(parent_node):"""),
  'M9-acc-scope-ignored': ('pyglove/core/symbolic/base.py', """  if writable_in_scope is None:
     return value.accessor_writable
   return writable_in_scope""", """  return value.accessor_writable"""),
+ 'M10-write-time-check-removed (seeded C08-3)': ('pyglove/core/symbolic/base.py', """    if treats_as_sealed(parent_node):
+      raise WritePermissionError(
+          f'Cannot rebind key {path.key!r} of '
+          f'sealed {parent_node.__class__.__name__}: {parent_node!r}. '
+          f'(path=\\'{path.parent}\\')')
+    return parent_node._set_item_without_permission_check""", """    return parent_node._set_item_without_permission_check"""),
+ 'M11-object-setattr-no-sealed-guard': ('pyglove/core/symbolic/object.py', """      if base.treats_as_sealed(self):
+        raise base.WritePermissionError(
+            self._error_message(
+                f'Cannot set attribute {name!r}: object is sealed.'))
+""", ""),
+ 'M12-del-slice-before-guard': ('pyglove/core/symbolic/list.py', """  def __delitem__(self, index: int) -> None:
+    \"\"\"Delete an item from the List.\"\"\"
+    if base.treats_as_sealed(self):""", """  def __delitem__(self, index: int) -> None:
+    \"\"\"Delete an item from the List.\"\"\"
+    if base.treats_as_sealed(self) and not isinstance(index, slice):"""),
+ 'M13-extended-slice-skips-acc-guard': ('pyglove/core/symbolic/list.py', """    if not base.writtable_via_accessors(self):
+      raise base.WritePermissionError(
+          self._error_message('Cannot modify List item by __setitem__ while '""", """    if not base.writtable_via_accessors(self) and not (
+        isinstance(index, slice) and index.step not in (None, 1)):
+      raise base.WritePermissionError(
+          self._error_message('Cannot modify List item by __setitem__ while '"""),
 }
 only = sys.argv[1:]
-res = {}
 for name, (path, old, new) in MUTS.items():
   if only and name.split('-')[0] not in only: continue
   subprocess.run(['git','-C','/repo','worktree','remove','--force',M],capture_output=True)
   subprocess.run(['git','-C','/repo','worktree','add',M,'HEAD'],capture_output=True,check=True)
-  subprocess.run('git -C %s diff | git -C %s apply' % (BASE, M), shell=True, check=True)
   fp=os.path.join(M,path); s=open(fp).read()
   assert old in s, name
   open(fp,'w').write(s.replace(old,new,1))
   imp = subprocess.run(['/venv/bin/python','-c','import pyglove'],cwd=M,capture_output=True)
   env=dict(os.environ, VERIF_REPO=M)
-  for f in os.listdir('/work/verif-c08/replays'):
-    if f.startswith('C08'): os.remove('/work/verif-c08/replays/'+f)
-  p=subprocess.run(['./check','C08'],cwd='/work/verif-c08',env=env,capture_output=True,text=True)
+  for f in os.listdir(VERIF+'/replays'):
+    if f.startswith('C08'): os.remove(VERIF+'/replays/'+f)
+  p=subprocess.run(['./check','C08'],cwd=VERIF,env=env,capture_output=True,text=True)
   lines=[l for l in p.stdout.split('\n') if l.startswith(('VIOLATION','BROKEN','FAIL','OK'))]
-  reps=sorted(f for f in os.listdir('/work/verif-c08/replays') if f.startswith('C08'))
+  reps=sorted(f for f in os.listdir(VERIF+'/replays') if f.startswith('C08'))
   rr=[]
   for r in reps:
-    j=json.load(open('/work/verif-c08/replays/'+r))
-    a=subprocess.run(['./check','C08','--replay','replays/'+r],cwd='/work/verif-c08',env=env,capture_output=True,text=True).returncode
-    b=subprocess.run(['./check','C08','--replay','replays/'+r],cwd='/work/verif-c08',env=dict(os.environ,VERIF_REPO=BASE),capture_output=True,text=True).returncode
+    j=json.load(open(VERIF+'/replays/'+r))
+    a=subprocess.run(['./check','C08','--replay','replays/'+r],cwd=VERIF,env=env,capture_output=True,text=True).returncode
+    b=subprocess.run(['./check','C08','--replay','replays/'+r],cwd=VERIF,env={k:v for k,v in os.environ.items() if k!='VERIF_REPO'},capture_output=True,text=True).returncode
     rr.append((r,j.get('kind'),j.get('signature'),'mutant-exit',a,'clean-exit',b))
   print('==',name,'import ok' if imp.returncode==0 else 'IMPORT FAILS','exit',p.returncode)
-  for l in lines[:8]: print('   ',l[:220])
+  for l in lines[:6]: print('   ',l[:200])
   for x in rr: print('   ',x)
   sys.stdout.flush()
 subprocess.run(['git','-C','/repo','worktree','remove','--force',M],capture_output=True)
-subprocess.run(['/venv/bin/python','-m','translate.t_c08'],cwd='/work/verif-c08',env=dict(os.environ,VERIF_REPO=BASE),capture_output=True)
+subprocess.run(['/venv/bin/python','-m','translate.t_c08'],cwd=VERIF,capture_output=True)
+for f in os.listdir(VERIF+'/replays'):
+  if f.startswith('C08'): os.remove(VERIF+'/replays/'+f)
